@@ -508,6 +508,13 @@ func main() {
 		must(fmt.Errorf("runtime/map.go: expected exactly one %q", needle))
 	}
 	mp = bytes.Replace(mp, []byte(needle), []byte(needle+"\n\tif VerifMapMode != 0 {\n\t\tr = uintptr(VerifMapVal)\n\t}"), 1)
+	// the per-map hash seed decides in which bucket a key lands, i.e. the iteration order of maps with more than 8
+	// entries: it is fixed together with the start position
+	const seedNeedle = "h.hash0 = uint32(rand())"
+	if bytes.Count(mp, []byte(seedNeedle)) < 3 {
+		must(fmt.Errorf("runtime/map.go: expected at least three %q", seedNeedle))
+	}
+	mp = bytes.ReplaceAll(mp, []byte(seedNeedle), []byte(seedNeedle+"\n\tif VerifMapMode != 0 {\n\t\th.hash0 = VerifMapSeed\n\t}"))
 	dst = filepath.Join(out, "goruntime/map.go")
 	writeIfChanged(dst, mp)
 	ov.Replace[filepath.Join(goroot, "src/runtime/map.go")] = dst
